@@ -145,7 +145,12 @@ def callOf (j : Json) : R Call := do
     let d : Option Nat ← match fieldOpt j "demand" with
       | some n => do pure (some (← nat n))
       | none => pure none
-    pure (.producer (← streamOf j false) d (← finOf j))
+    let brk : Nat → Bool ← match fieldOpt j "brk" with
+      | none => pure (fun _ => true)
+      | some (.str "all") => pure (fun _ => true)
+      | some (.str "none") => pure (fun _ => false)
+      | some b => do let ps ← (← arr b).mapM nat; pure (fun p => ps.contains p)
+    pure (.producer (← streamOf j false) brk d (← finOf j))
   | "exchange" =>
     let overs : List (Nat × Exn) ← match fieldOpt j "over" with
       | some a => do (← arr a).mapM fun p => do
@@ -160,13 +165,7 @@ def callOf (j : Json) : R Call := do
 def transportOf (j : Json) : R Transport := do
   match ← rawStr (← field j "transport") with
   | "pipe" => pure .pipe
-  | "http" =>
-    let brk : Nat → Bool ← match fieldOpt j "brk" with
-      | none => pure (fun _ => true)
-      | some (.str "all") => pure (fun _ => true)
-      | some (.str "none") => pure (fun _ => false)
-      | some b => do let ps ← (← arr b).mapM nat; pure (fun p => ps.contains p)
-    pure (.http brk)
+  | "http" => pure .http
   | t => throw s!"transport {t}"
 
 def handle (fn : String) (a : Json) : R Json := do
